@@ -257,7 +257,7 @@ def kernel_of(draw, kind, D, kb, allow_ad=True, force_ad=False, depth=2):
     elif kind == "LCM":
         t = draw(st.integers(2, 3))
         nb = draw(st.integers(1, 3))
-        bases = [draw(kern.base_kernel(D, draw(st.sampled_from([kb, kb, []])), DATA_NAMES, allow_ad)) for _ in range(nb)]
+        bases = [draw(kern.base_kernel(D, kb if i == 0 else draw(st.sampled_from([kb, kb, []])), DATA_NAMES, allow_ad)) for i in range(nb)]
         ranks = [draw(st.integers(1, t)) for _ in range(nb)]
         r = {"k": "LCM", "batch": [], "bases": bases, "tasks": t, "ranks": ranks, "p": [draw(task_params([], t, q)) for q in ranks]}
     else:
@@ -290,7 +290,7 @@ def setup(draw, kinds=None, max_n=4, square=False, full_shapes=None, allow_ad=Tr
     else:
         kb = F if force_batch else draw(sub_shape(F))
         b1 = draw(sub_shape(F))
-        b2 = draw(st.sampled_from([b1, None])) or draw(sub_shape(F))
+        b2 = b1 if draw(st.booleans()) else draw(sub_shape(F))
     r = draw(kernel_of(kind, D, kb, allow_ad=allow_ad))
     n1 = draw(st.integers(1, max_n))
     n2 = n1 if (square or kind == "RBFGradGrad") else draw(st.integers(1, max_n))
@@ -530,7 +530,7 @@ def index_core(r, k, x1, x2, ix, D, ctx: Ctx):
     ctx.set_nontrivial((fl["touches_batch"] and (per_batch(r) or has_ad(r))) or fl["unaligned"] or fl["tensor"])
     with ctx.observing("getitem"):
         lz = k(x1, x2)
-        got = lz[idx[0]] if (len(idx) == 1 and ix[0] != "..." and "tensor" not in ix[0]) else lz[idx]
+        got = lz[idx[0]] if len(idx) == 1 else lz[idx]
         res_shape = tuple(got.shape)
         got = dense(got)
     ctx.equal("getitem.shape", res_shape, tuple(want.shape))
@@ -570,16 +570,16 @@ def index_case(draw):
         q = draw(st.integers(0, nd - p))
         ix = ([draw(idx_dim(shape[i], i >= nd - 2)) for i in range(p)] + ["..."]
               + [draw(idx_dim(shape[nd - q + j], nd - q + j >= nd - 2)) for j in range(q)])
-    if t > 1 and draw(st.integers(0, 2)) == 0 and len(ix) >= 2 and ix[-1] != "..." and ix[-2] != "...":
-        # slices aligned with the outputs-per-input (the branch that stays lazy)
+    if t > 1 and form == "full" and draw(st.integers(0, 2)) == 0:
+        # slices aligned with the outputs-per-input (the branch of _getitem that stays lazy)
         def al(size):
             n = size // t
             a = draw(st.integers(0, n - 1))
             b = draw(st.integers(a + 1, n))
             a_, b_ = a * t, b * t
-            return {"slice": [draw(st.sampled_from([a_, a_ - size] if a_ else [0, None])), draw(st.sampled_from([b_, b_ - size] if b_ < size else [b_, None, size + 3])), None]}
-        if len(expand_idx(ix, nd)) == nd and expand_idx(ix, nd)[-1] is not None and expand_idx(ix, nd)[-2] is not None:
-            ix[-2], ix[-1] = al(shape[-2]), al(shape[-1])
+            return {"slice": [draw(st.sampled_from([a_, a_ - size] if a_ else [0, None])),
+                              draw(st.sampled_from([b_, b_ - size] if b_ < size else [b_, None, size + t])), None]}
+        ix[-2], ix[-1] = al(shape[-2]), al(shape[-1])
     c["idx"] = ix
     return c
 
@@ -674,12 +674,19 @@ def fixed_setups():
     S_["RBFGrad[2] x[2]"] = (_rbf([2], name="RBFGrad"), 1, [2], 2, [2], 2)
     S_["Matern52Grad[] x[2]"] = (_rbf(name="Matern52Grad"), 1, [2], 2, [2], 2)
     S_["RBF[2,1] x[2,2]"] = (_rbf([2, 1], d=1), 1, [2, 2], 2, [2, 2], 2)
+    # --- batch rank 2 (kernel[idx] enumeration)
+    S_["RBF[3,2]/ad x[3,2]"] = (_rbf([3, 2], ad=[1], d=1), 2, [3, 2], 2, [3, 2], 2)
+    rq = _rbf([3, 2], name="RQ", d=2, a=5)
+    rq["p"]["alpha"] = T(_os([3, 2], 2)).unsqueeze(-1).tolist()
+    S_["Scale[3,2](Matern[3,2]/ad*RQ[3,2]) x[]"] = ({"k": "Scale", "batch": [3, 2], "p": {"outputscale": _os([3, 2], 3)}, "base": {
+        "k": "Prod", "batch": [3, 2], "parts": [_rbf([3, 2], name="Matern2.5", ad=[0], d=1), rq]}}, 2, [], 2, [], 2)
     return S_
 
 
 FIXED = fixed_setups()
-ENUM_2D = [n for n, v in FIXED.items() if not v[2] and not v[4] and not batch_of(v[0])]
-ENUM_BATCH = [n for n in FIXED if n not in ENUM_2D]
+ENUM_2D = [n for n, v in FIXED.items() if not v[2] and not v[4] and not batch_of(v[0])]  # un-batched results
+ENUM_RANK2 = ["RBF[2,1] x[2,2]", "RBF[3,2]/ad x[3,2]", "Scale[3,2](Matern[3,2]/ad*RQ[3,2]) x[]"]  # 4-d results
+ENUM_BATCH = [n for n in FIXED if n not in ENUM_2D and n not in ENUM_RANK2]  # 3-d results
 
 
 def fixed_case(name):
@@ -704,15 +711,19 @@ def family_dim_options(size, matrix, reduced=False):
     return out
 
 
-def family(shape, reduced_matrix=False):
-    """all index tuples of the family: full-length products, prefixes, `...` in every position (standing for >= 1 dims)"""
+def family(shape, reduced_matrix=False, zero_width="all"):
+    """all index tuples of the family: full-length products, prefixes, `...` in every position.  zero_width: whether
+    full-length tuples additionally carry a `...` that stands for no dimension ("all" positions / "front" only / "none");
+    `[..., rows, cols]` is the special-cased fast path of LazyEvaluatedKernelTensor.__getitem__"""
     nd = len(shape)
-    opts = [family_dim_options(s, i >= nd - 2, reduced_matrix and i >= nd - 2 and nd > 2) for i, s in enumerate(shape)]
+    opts = [family_dim_options(s, i >= nd - 2, reduced_matrix and i >= nd - 2) for i, s in enumerate(shape)]
     for k in range(1, nd + 1):
         for combo in itertools.product(*opts[:k]):
             yield list(combo)
-    for p in range(0, nd):
-        for q in range(0, nd - p):
+    for p in range(0, nd + 1):
+        for q in range(0, nd - p + 1):
+            if p + q == nd and not (zero_width == "all" or (zero_width == "front" and p == 0)):
+                continue
             for combo in itertools.product(*opts[:p], *(opts[nd - q:] if q else [])):
                 yield list(combo[:p]) + ["..."] + list(combo[p:])
 
@@ -724,12 +735,17 @@ def result_shape(name):
 
 
 def enumerate_index(tier):
+    quick = tier == "quick"
     for name in ENUM_2D:
         for ix in family(result_shape(name)):
             yield {"setup": name, "idx": ix}
     for name in ENUM_BATCH:
-        for ix in family(result_shape(name), reduced_matrix=(tier == "quick")):
+        for ix in family(result_shape(name), reduced_matrix=quick, zero_width="front" if quick else "all"):
             yield {"setup": name, "idx": ix}
+    if not quick:
+        for name in ENUM_RANK2:
+            for ix in family(result_shape(name), reduced_matrix=True, zero_width="front"):
+                yield {"setup": name, "idx": ix}
 
 
 _DENSE = {}
@@ -753,9 +769,11 @@ EXH_NOTE = ("index.exhaustive: for each of the fixed kernel set-ups of pbt/props
             "LCMKernel, RBFKernelGrad, Matern52KernelGrad, PolynomialKernelGrad, RBFKernelGradGrad; un-batched and batched with "
             "every x1/x2/kernel broadcast pattern) every index tuple of the family {all non-negative ints (all ints on batch dims), "
             "slices with start/stop in {None,1,2,-1,size+2} x step in {None,2}, index tensors [0], [size-1,0], [0,0,size-1]} per "
-            "dimension: full-length tuples, all prefixes, and `...` in every position.  2-d results: the complete product; "
-            "batched results: complete on the batch dimensions x a 10-element cross-section on the two matrix dimensions in the "
-            "quick tier, the complete product in the thorough tier.  Negative ints on matrix dimensions are excluded (counted).")
+            "dimension: full-length tuples, all prefixes, and `...` in every position (also standing for zero dimensions).  2-d results: "
+            "the complete product; results with one batch dimension: complete on the batch dimension x a 10-element cross-section on the "
+            "two matrix dimensions (zero-width `...` in front only) in the quick tier, the complete product in the thorough tier; results "
+            "with two batch dimensions (thorough only): complete on the batch dimensions x the cross-section.  Negative ints on matrix "
+            "dimensions are excluded (counted).")
 
 
 # ====================================================================================================
@@ -926,11 +944,41 @@ def restricted_value(r, x1, x2, ctx: Ctx):
 
 
 @st.composite
-def with_forced_ad(draw, r, D):
-    """make sure at least one leaf carries active_dims"""
-    if has_ad(r) or D < 2:
+def ad_leaf(draw, D, batch, names=None):
+    """a basic leaf kernel that owns active_dims (constructed: drawn on k < D dimensions, then given k columns)"""
+    k = draw(st.integers(1, D - 1))
+    leaf = dict(draw(kern.base_kernel(k, batch, names, allow_ad=False)))
+    leaf["ad"] = draw(st.permutations(list(range(D))).map(lambda p: sorted(p[:k])))
+    return leaf
+
+
+@st.composite
+def force_ad(draw, r, D):
+    """make sure at least one basic leaf carries active_dims: a leaf without is replaced by one of the same class with"""
+    if has_ad(r):
         return r
-    return r
+    n = len(leaves(r))
+    target = draw(st.integers(0, n - 1))
+    counter = [0]
+
+    def rec(node):
+        cs = children(node)
+        if not cs:
+            i = counter[0]
+            counter[0] += 1
+            return draw(ad_leaf(D, node.get("batch", []), [node["k"]])) if i == target else node
+        node = dict(node)
+        if node["k"] in ("Scale", "Inducing"):
+            node["base"] = rec(node["base"])
+        elif node["k"] in ("Add", "Prod"):
+            node["parts"] = [rec(p) for p in node["parts"]]
+        elif node["k"] == "Multitask":
+            node["data"] = rec(node["data"])
+        else:
+            node["bases"] = [rec(b) for b in node["bases"]]
+        return node
+
+    return rec(r)
 
 
 @st.composite
@@ -944,7 +992,7 @@ def ad_case(draw):
         r = draw(kernel_of(kind, D, kb, force_ad=True))
     elif kind == "Inducing":
         kb, b1, b2 = [], F, F
-        leaf = draw(kern.base_kernel(D, [], names=["RBF", "Matern1.5", "Matern2.5", "RQ", "Periodic"]).filter(lambda l: l["ad"] is not None))
+        leaf = draw(ad_leaf(D, [], ["RBF", "Matern1.5", "Matern2.5", "RQ", "Periodic"]))
         base = leaf if draw(st.booleans()) else {"k": "Scale", "batch": [], "base": leaf, "p": {"outputscale": draw(pos(0.1, 5.0))}}
         m = draw(st.integers(1, 3))
         # inducing points on a coarse grid in the selected columns, so that K_zz is well conditioned on both routes
@@ -954,11 +1002,11 @@ def ad_case(draw):
     else:
         kb = draw(sub_shape(F))
         b1 = draw(sub_shape(F))
-        b2 = draw(st.sampled_from([b1, None])) or draw(sub_shape(F))
+        b2 = b1 if draw(st.booleans()) else draw(sub_shape(F))
         if kind == "leaf":
-            r = draw(kern.base_kernel(D, kb).filter(lambda l: l["ad"] is not None))
+            r = draw(ad_leaf(D, kb))
         else:
-            r = draw(kernel_of(kind, D, kb).filter(has_ad))
+            r = draw(force_ad(draw(kernel_of(kind, D, kb)), D))
     n1 = draw(st.integers(1, 4))
     same = draw(st.integers(0, 2)) == 0 or contains(r, "RBFGradGrad")
     n2 = n1 if same else draw(st.integers(1, 4))
@@ -1040,8 +1088,10 @@ def getitem_case(draw):
     return c
 
 
-def run_getitem(case, ctx: Ctx):
+def run_getitem(case, ctx: Ctx, cls=None):
     r, k, x1, x2 = prepare(case, ctx)
+    if cls is not None:
+        ctx.cls = cls
     common_labels(ctx, r, x1, x2)
     kb = batch_of(r)
     ix = case["idx"]
@@ -1084,11 +1134,6 @@ def run_getitem(case, ctx: Ctx):
 
 GETITEM_FIXED = ["RBF[2]/ad x[2]", "RBF[2]/ad x[]", "Scale[2](RBF[]+Linear[2])", "Multitask[2](RBF[2])t2 x[2]", "RBFGrad[2] x[2]",
                  "RBF[3,2]/ad x[3,2]", "Scale[3,2](Matern[3,2]/ad*RQ[3,2]) x[]"]
-FIXED["RBF[3,2]/ad x[3,2]"] = (_rbf([3, 2], ad=[1], d=1), 2, [3, 2], 2, [3, 2], 2)
-FIXED["Scale[3,2](Matern[3,2]/ad*RQ[3,2]) x[]"] = ({"k": "Scale", "batch": [3, 2], "p": {"outputscale": _os([3, 2], 3)}, "base": {
-    "k": "Prod", "batch": [3, 2], "parts": [_rbf([3, 2], name="Matern2.5", ad=[0], d=1), dict(_rbf([3, 2], name="RQ", d=2, a=5))]}}, 2, [], 2, [], 2)
-FIXED["Scale[3,2](Matern[3,2]/ad*RQ[3,2]) x[]"][0]["base"]["parts"][1]["p"]["alpha"] = T(_os([3, 2], 2)).unsqueeze(-1).tolist()
-
 
 def batch_family(kb):
     opts = [family_dim_options(s, False) for s in kb]
@@ -1108,8 +1153,7 @@ def enumerate_getitem(tier):
 
 def run_getitem_enum(case, ctx: Ctx):
     c = dict(fixed_case(case["setup"]), idx=case["idx"], bare=case.get("bare", False))
-    run_getitem(c, ctx)
-    ctx.cls = f"enum:{case['setup']}"
+    run_getitem(c, ctx, cls=f"enum:{case['setup']}|{'ad' if has_ad(c['kernel']) else 'noad'}")
 
 
 @st.composite
@@ -1135,23 +1179,15 @@ def run_expand(case, ctx: Ctx):
     r, k, x1, x2 = prepare(case, ctx)
     common_labels(ctx, r, x1, x2)
     tgt = list(case["target"])
-    grad = any(contains(r, g) for g in GRAD)
     ctx.label(f"expand.from={batch_of(r)}", f"expand.rank+={len(tgt) - len(batch_of(r))}")
     ctx.set_nontrivial(True)
     with ctx.observing("expand_batch"):
         ke = k.expand_batch(*tgt) if case["as_args"] and len(tgt) > 1 else k.expand_batch(torch.Size(tgt))
         ebs = tuple(ke.batch_shape)
     ctx.equal("expand_batch.batch_shape", ebs, tuple(tgt))
-    # reference: the original kernel on the same inputs, broadcast to the target shape.  Derivative kernels need inputs of
-    # the kernel's own batch rank, so the original is evaluated per target element
+    # reference: the original kernel on the same inputs, broadcast to the target shape
     with ctx.observing("evaluate.original"):
-        if grad and x1.dim() - 2 > len(batch_of(r)):
-            nlead = len(tgt) - len(batch_of(r))
-            flat1 = x1.reshape(-1, *x1.shape[nlead:])
-            flat2 = x2.reshape(-1, *x2.shape[nlead:])
-            D = torch.stack([dense(k(a, b)) for a, b in zip(flat1, flat2)]).reshape(*tgt[:nlead], *dense(k(flat1[0], flat2[0])).shape)
-        else:
-            D = dense(k(x1, x2))
+        D = dense(k(x1, x2))
     want = D.expand(*tgt, *D.shape[-2:])
     tl = tol(r)
     for lazy in (True, False):
